@@ -2,7 +2,8 @@
    Only statements here; proofs are in ComputeProofs.v / CacheProofs.v / RaceProofs.v. *)
 From Coq Require Import List ZArith NArith Bool Arith String.
 From Scalibr Require Import Sched.Compute Sched.ComputeProofs Sched.Cache Sched.CacheProofs
-                            Sched.RaceModel Sched.Generated_WalkAccesses Sched.RaceProofs.
+                            Sched.RaceModel Sched.Generated_WalkAccesses Sched.RaceProofs
+                            Sched.ClientRace Sched.Generated_ClientAccesses Sched.ClientRaceProofs.
 Import ListNotations.
 
 (* ================================================================== (a) patch computation *)
@@ -104,6 +105,40 @@ Theorem walk_context_race_free :
   racy_fields walk_fields walk_accesses walk_calls "RunFS" = [].
 Proof. exact walk_context_race_free_lemma. Qed.
 Print Assumptions walk_context_race_free.
+
+(* ================================================================== (c') shared clients - PARTIAL *)
+(* on the access table regenerated from clients/datasource and clients/resolution on this run (any two methods
+   of a struct may run concurrently on one receiver): the request cache, the lazily initialised combined
+   client and the npm / deps.dev caches keep every conflicting pair of accesses under their mutex *)
+Theorem shared_clients_lock_protected :
+  forallb (fun sf => slot_free client_accesses (fst sf) (snd sf))
+    [("RequestCache", "cache"); ("RequestCache", "calls");
+     ("CombinedNativeClient", "mavenRegistryClient"); ("CombinedNativeClient", "npmRegistryClient");
+     ("CombinedNativeClient", "pypiRegistryClient");
+     ("NPMRegistryAPIClient", "details"); ("NPMRegistryAPIClient", "cacheTimestamp");
+     ("CachedInsightsClient", "packageCache"); ("CachedInsightsClient", "versionCache");
+     ("CachedInsightsClient", "requirementsCache"); ("CachedInsightsClient", "cacheTimestamp")]%string = true.
+Proof. exact shared_clients_lock_protected_lemma. Qed.
+Print Assumptions shared_clients_lock_protected.
+
+(* ... and these are all the slots that do not: the Maven registry list (written by AddRegistry, appended to
+   by the read paths), its cache timestamp (read by WithoutRegistries), and the OverrideClient maps (an
+   OverrideClient is built and filled by one goroutine per Resolve call: confined, not shared) *)
+Theorem client_unprotected_slots_refuted :
+  unprotected_slots client_accesses =
+    [("MavenRegistryAPIClient", "registries"); ("MavenRegistryAPIClient", "cacheTimestamp");
+     ("OverrideClient", "verDeps"); ("OverrideClient", "pkgVers")]%string.
+Proof. exact client_unprotected_slots_lemma. Qed.
+Print Assumptions client_unprotected_slots_refuted.
+
+(* concurrent GetProject / GetVersions both do append(m.registries, m.defaultRegistry) on the shared slice *)
+Theorem maven_registry_append_race_refuted :
+  append_pairs <> [] /\
+  forallb (fun p => String.eqb (ca_struct (fst p)) "MavenRegistryAPIClient" && String.eqb (ca_field (fst p)) "registries")
+          (filter (fun p => match ca_kind (fst p), ca_kind (snd p) with AA, AA => true | _, _ => false end)
+                  (unprotected_pairs client_accesses)) = true.
+Proof. exact maven_registry_append_race_lemma. Qed.
+Print Assumptions maven_registry_append_race_refuted.
 
 (* ================================================================== non-vacuity *)
 (* a strategy with a spawned attempt: two delivery orders, same result; hypotheses hold on its outputs *)
